@@ -115,6 +115,12 @@ impl RuntimeSettings {
                         }
                     }
 
+                    if within_replacment {
+                        // Unterminated `{`: there is nothing to replace, keep the text as-is
+                        new_component.push('{');
+                        new_component += &custom_option;
+                    }
+
                     new_path.push(new_component)
                 }
             } else {
